@@ -372,6 +372,8 @@ class QuantityTableCoordinate(BaseTableCoordinate):
             item = (item,)
         if not (len(item) == len(self.table) or len(item) == self.table[0].ndim):
             raise ValueError("Can not slice with incorrect length")
+        # Tables without an item of their own are kept whole, as trailing axes of an array are.
+        item = tuple(item) + (slice(None),) * (len(self.table) - len(item))
 
         new_components = defaultdict(list)
         new_components["dropped_world_dimensions"] = copy.deepcopy(self._dropped_world_dimensions)
